@@ -11,6 +11,9 @@ import Driver.Cbor
 import Driver.Lht
 import Driver.MemTrace
 import Driver.Seqs
+import Driver.Heap
+import Driver.Sched
+import Driver.Json
 /-! One line per component driver. -/
 namespace Driver
 def registry : List (String × Component) := [
@@ -25,6 +28,9 @@ def registry : List (String × Component) := [
   ("cbor", CborD.component),
   ("lht", LhtD.component),
   ("memtrace", MemTraceD.component),
-  ("seqs", SeqsD.component)
+  ("seqs", SeqsD.component),
+  ("heap", HeapD.component),
+  ("sched", SchedD.component),
+  ("json", JsonD.component)
 ]
 end Driver
